@@ -57,6 +57,7 @@ Menu == <<
   [c |-> "simp_S",      api |-> "expr_simp",  kind |-> "pure",  m |-> 0, ex |-> FALSE],  \* expr_simp(expr_simp(T))
   [c |-> "simp_C",      api |-> "expr_simp",  kind |-> "pure",  m |-> 0, ex |-> FALSE],  \* shared tree with adjacent slices of one source in a composition (slice fusion)
   [c |-> "eval_C_m2",   api |-> "eval_expr",  kind |-> "read",  m |-> 2, ex |-> FALSE],  \* the same tree evaluated on m2
+  [c |-> "simp_C2",     api |-> "expr_simp",  kind |-> "pure",  m |-> 0, ex |-> FALSE],  \* shared concatenation whose constant part has bits above its slot (0x1FF in 8 bits)
   [c |-> "eval_w_m1",   api |-> "eval_expr",  kind |-> "read",  m |-> 1, ex |-> FALSE],  \* identifier absent from the state
   [c |-> "eval_w_m2",   api |-> "eval_expr",  kind |-> "read",  m |-> 2, ex |-> FALSE],  \* same identifier, bound to 7
   [c |-> "eval_es_m1",  api |-> "eval_expr",  kind |-> "read",  m |-> 1, ex |-> FALSE],  \* segment register, absent from m1 until emul_sete_m1
@@ -67,6 +68,8 @@ Menu == <<
   [c |-> "eval_abs_m2", api |-> "eval_expr",  kind |-> "read",  m |-> 2, ex |-> FALSE],  \* the same object on m2, where the cell holds 7
   [c |-> "new_machine", api |-> "x86_machine", kind |-> "pure", m |-> 0, ex |-> FALSE],  \* builds another machine from the shared initial-register table
   [c |-> "evi_add_m1",  api |-> "eval_instr", kind |-> "write", m |-> 1, ex |-> FALSE],  \* eval_instr(lift(add eax, 1))
+  [c |-> "evi_L_m1",    api |-> "eval_instr", kind |-> "write", m |-> 1, ex |-> FALSE],  \* eval_instr of the SHARED lifted list L (add eax, 1) on m1
+  [c |-> "evi_L_m2",    api |-> "eval_instr", kind |-> "write", m |-> 2, ex |-> FALSE],  \* the same list on m2 (eax = 7: the flags are decided)
   [c |-> "emul_pp_m1",  api |-> "emul_lines", kind |-> "write", m |-> 1, ex |-> FALSE],  \* push eax; pop ebx
   [c |-> "emul_es_m1",  api |-> "emul_lines", kind |-> "write", m |-> 1, ex |-> FALSE],  \* mov eax, es (es absent from m1)
   [c |-> "emul_sete_m1", api |-> "emul_lines", kind |-> "write", m |-> 1, ex |-> FALSE], \* mov es, ebx (binds es in m1)
@@ -92,7 +95,7 @@ AllCalls == Menu \o Extra
 (* literals (byte strings, text lines), the shared instruction objects, the shared identifier w, the      *)
 (* shared trees T, U, Q, the program counter constant, the module-level register expressions of ia32_sem, *)
 (* and the one piece of interpreter-wide state every later import of the client depends on: sys.path      *)
-Fixtures == <<"lit", "I_shl", "I_add", "I_push", "I_pop", "I_moves", "I_sete", "I_div", "I_sse", "I_rep67", "I_popad", "I_movecx3", "I_rep", "K", "K2", "w", "T", "U", "Q", "Q2", "C", "pc", "regs", "sys.path">>
+Fixtures == <<"lit", "I_shl", "I_add", "I_push", "I_pop", "I_moves", "I_sete", "I_div", "I_sse", "I_rep67", "I_popad", "I_movecx3", "I_rep", "K", "K2", "w", "T", "U", "Q", "Q2", "C", "C2", "L", "pc", "regs", "sys.path">>
 ASSUME PrintT("MENU " \o ToJson([calls |-> AllCalls, n |-> N, fixtures |-> Fixtures]))
 
 VARIABLES cfg,    \* cache configuration of the process that runs the history
